@@ -28,18 +28,10 @@ pub use constants::{LAST_COLUMN, LAST_ROW};
     ensures r == (1 <= row <= 1048576)
 //@rewrite `-> bool` => `-> (r: bool)`
 //@end
-//@type base/src/types.rs WorkbookView
-//@type base/src/types.rs WorksheetView
 //@type base/src/user_model/ui.rs SelectedView
-// ---- context shells (D5): the fields the selection code touches; everything else behind an opaque rest ----
-#[verifier::external_body] pub struct WorksheetRest { _o: u8 }
-#[verifier::external_body] pub struct WorkbookRest { _o: u8 }
-#[verifier::external_body] pub struct ModelRest { _o: u8 }
-pub struct Worksheet { pub views: HashMap<u32, WorksheetView>, pub rest: WorksheetRest }
-pub struct Workbook { pub worksheets: Vec<Worksheet>, pub views: HashMap<u32, WorkbookView>, pub rest: WorkbookRest }
-pub struct Model { pub workbook: Workbook, pub view_id: u32, pub rest: ModelRest }
-pub struct UserModel { pub model: Model }
+//@include um_shells.rs
 
+pub open spec fn small(x: int) -> bool { -4194304 <= x <= 4194304 }
 pub open spec fn on_grid(row: int, column: int) -> bool { 1 <= row <= 1048576 && 1 <= column <= 16384 }
 pub open spec fn between(x: int, a: int, b: int) -> bool { a <= x <= b || b <= x <= a }
 /// C28 for one worksheet view: cell and range on the grid, cell inside the range
@@ -47,25 +39,146 @@ pub open spec fn view_ok(v: WorksheetView) -> bool {
     on_grid(v.row as int, v.column as int) && on_grid(v.range@[0] as int, v.range@[1] as int) && on_grid(v.range@[2] as int, v.range@[3] as int)
         && between(v.row as int, v.range@[0] as int, v.range@[2] as int) && between(v.column as int, v.range@[1] as int, v.range@[3] as int)
 }
-/// C28 for the workbook: every view's selected sheet exists, every worksheet view is view_ok
+/// C28 for the workbook: the selected sheet (the sheet of THE view, `view_id`, which every constructor sets to 0 and nothing
+/// reassigns — scan view-id-writers) exists, and every worksheet view is view_ok
 pub open spec fn sel_inv(m: &Model) -> bool {
+    &&& m.view_id == 0
     &&& m.workbook.worksheets@.len() >= 1
-    &&& forall|k: u32| m.workbook.views@.contains_key(k) ==> (#[trigger] m.workbook.views@[k]).sheet < m.workbook.worksheets@.len()
+    &&& m.workbook.views@.contains_key(m.view_id) ==> m.workbook.views@[m.view_id].sheet < m.workbook.worksheets@.len()
     &&& forall|i: int, k: u32| 0 <= i < m.workbook.worksheets@.len() && m.workbook.worksheets@[i].views@.contains_key(k)
             ==> view_ok(#[trigger] m.workbook.worksheets@[i].views@[k])
 }
+/// sheet indices are u32 in every API; the engine never holds 2^31 sheets (assumption, not provable: Model::new_sheet has no such check)
+pub open spec fn few_sheets(m: &Model) -> bool { m.workbook.worksheets@.len() < 0x8000_0000 }
 /// equality of engine states as far as this unit can see them (hash maps compared by their contents)
 pub open spec fn same_model(a: &Model, b: &Model) -> bool {
-    &&& a.view_id == b.view_id && a.rest == b.rest && a.workbook.rest == b.workbook.rest && a.workbook.views@ =~= b.workbook.views@
+    &&& a.view_id == b.view_id && a.rest == b.rest && a.workbook.rest == b.workbook.rest && a.workbook.name == b.workbook.name
+    &&& a.workbook.views@ =~= b.workbook.views@
     &&& a.workbook.worksheets@.len() == b.workbook.worksheets@.len()
-    &&& forall|i: int| 0 <= i < a.workbook.worksheets@.len() ==> (#[trigger] a.workbook.worksheets@[i]).rest == b.workbook.worksheets@[i].rest
-            && a.workbook.worksheets@[i].views@ =~= b.workbook.worksheets@[i].views@
+    &&& forall|i: int| 0 <= i < a.workbook.worksheets@.len() ==> same_sheet(#[trigger] a.workbook.worksheets@[i], b.workbook.worksheets@[i])
 }
+pub open spec fn same_sheet(x: Worksheet, y: Worksheet) -> bool {
+    x.rest == y.rest && x.name == y.name && x.color == y.color && x.show_grid_lines == y.show_grid_lines && x.state == y.state && x.views@ =~= y.views@
+}
+/// what the hidden-flag setters of the engine leave alone: every view (by content), the sheet list's length
+pub open spec fn hidden_frame(a: &Model, b: &Model) -> bool {
+    &&& b.workbook.views@ =~= a.workbook.views@ && b.view_id == a.view_id && b.workbook.worksheets@.len() == a.workbook.worksheets@.len()
+    &&& forall|i: int| 0 <= i < a.workbook.worksheets@.len() ==> (#[trigger] b.workbook.worksheets@[i]).views@ =~= a.workbook.worksheets@[i].views@
+}
+/// the selection setters touch nothing but the engine's views
+pub open spec fn ui_frame(a: &UserModel, b: &UserModel) -> bool { a.history == b.history && a.send_queue == b.send_queue && a.pause_evaluation == b.pause_evaluation }
 /// the sheet the selection setters work on (the code's own rule: the view's sheet, 0 without a view)
 pub open spec fn cur_sheet(m: &Model) -> int {
     if m.workbook.views@.contains_key(m.view_id) { m.workbook.views@[m.view_id].sheet as int } else { 0 }
 }
 
+/// what C04 says a failed call must leave alone, with the engine compared through same_model
+pub open spec fn same_state_v(a: &UserModel, b: &UserModel) -> bool {
+    same_model(&a.model, &b.model) && a.history.undo_stack@ =~= b.history.undo_stack@ && a.history.redo_stack@ =~= b.history.redo_stack@
+        && a.send_queue@ =~= b.send_queue@
+}
+impl Clone for Worksheet { #[verifier::external_body] fn clone(&self) -> (r: Self) ensures r == *self { unimplemented!() } }
+impl<'a> Model<'a> {
+    #[verifier::external_body]
+    pub fn reset_parsed_structures(&mut self) ensures final(self).workbook == old(self).workbook, final(self).view_id == old(self).view_id { unimplemented!() }
+//@stub base/src/model.rs Model::evaluate
+    ensures final(self).workbook.views == old(self).workbook.views, final(self).view_id == old(self).view_id,
+            final(self).workbook.worksheets@.len() == old(self).workbook.worksheets@.len(),
+            forall|i: int| 0 <= i < old(self).workbook.worksheets@.len() ==> (#[trigger] final(self).workbook.worksheets@[i]).views == old(self).workbook.worksheets@[i].views
+//@end
+//@fn base/src/model.rs Model::set_sheet_state
+//@spec
+    ensures
+        r.is_ok() == ((sheet as int) < old(self).workbook.worksheets@.len()),
+        r.is_err() ==> same_model(final(self), old(self)),
+        final(self).workbook.views == old(self).workbook.views && final(self).view_id == old(self).view_id && final(self).rest == old(self).rest
+            && final(self).workbook.rest == old(self).workbook.rest && final(self).workbook.name == old(self).workbook.name,
+        final(self).workbook.worksheets@.len() == old(self).workbook.worksheets@.len(),
+        forall|i: int| 0 <= i < old(self).workbook.worksheets@.len() ==> (#[trigger] final(self).workbook.worksheets@[i]).views == old(self).workbook.worksheets@[i].views
+            && (i != sheet ==> final(self).workbook.worksheets@[i] == old(self).workbook.worksheets@[i]),
+        r.is_ok() ==> final(self).workbook.worksheets@[sheet as int].state == state,
+//@rewrite `-> Result<(), String> {` => `-> (r: Result<(), String>) {`
+//@end
+// ASSUMED (string-heavy engine code): a new or duplicated sheet arrives with on-grid views, at the stated index, and the other sheets,
+// the workbook views and view_id are kept
+//@stub base/src/new_empty.rs Model::new_sheet
+    ensures final(self).workbook.worksheets@.len() == old(self).workbook.worksheets@.len() + 1,
+            r.1 as int == old(self).workbook.worksheets@.len(),
+            final(self).workbook.worksheets@.drop_last() =~= old(self).workbook.worksheets@,
+            forall|k: u32| final(self).workbook.worksheets@.last().views@.contains_key(k) ==> view_ok(#[trigger] final(self).workbook.worksheets@.last().views@[k]),
+            final(self).workbook.views == old(self).workbook.views && final(self).view_id == old(self).view_id
+//@end
+//@stub base/src/new_empty.rs Model::duplicate_sheet
+    ensures r.is_err() ==> *final(self) == *old(self),
+            r.is_ok() ==> (source_index as int) < old(self).workbook.worksheets@.len() && r.unwrap().1 == source_index + 1
+                && final(self).workbook.worksheets@.len() == old(self).workbook.worksheets@.len() + 1
+                && final(self).workbook.worksheets@.remove(source_index as int + 1) =~= old(self).workbook.worksheets@
+                && final(self).workbook.worksheets@[source_index as int + 1].views == old(self).workbook.worksheets@[source_index as int].views
+                && final(self).workbook.views == old(self).workbook.views && final(self).view_id == old(self).view_id
+//@end
+// A-valid-ok / A-atomic for the hidden flag (ASSUMED here; Worksheet::set_column_hidden / set_row_hidden carry the `Err iff off-grid`
+// contract in units cols / rows and unit delegates proves the Model one-liners pass their arguments through)
+//@stub base/src/model.rs Model::set_column_hidden
+    ensures r.is_err() ==> *final(self) == *old(self),
+            old(self).has_sheet(sheet) && 1 <= column <= 16384 ==> r.is_ok(),
+            hidden_frame(old(self), final(self))
+//@end
+//@stub base/src/model.rs Model::set_row_hidden
+    ensures r.is_err() ==> *final(self) == *old(self),
+            old(self).has_sheet(sheet) && 1 <= row <= 1048576 ==> r.is_ok(),
+            hidden_frame(old(self), final(self))
+//@end
+    pub open spec fn has_sheet(&self, sheet: u32) -> bool { (sheet as int) < self.workbook.worksheets@.len() }
+// the engine's own sheet deletion / move (also under contract in unit modelatomic): validation first, then exactly one sheet
+// is removed / re-positioned; the views are not touched
+//@fn base/src/new_empty.rs Model::delete_sheet
+//@spec
+    ensures
+        r.is_err() ==> final(self).workbook == old(self).workbook && final(self).view_id == old(self).view_id && final(self).rest == old(self).rest,
+        r.is_ok() ==> old(self).workbook.worksheets@.len() > 1 && sheet_index < old(self).workbook.worksheets@.len()
+            && final(self).workbook.worksheets@ =~= old(self).workbook.worksheets@.remove(sheet_index as int)
+            && final(self).workbook.views == old(self).workbook.views && final(self).view_id == old(self).view_id,
+//@rewrite `-> Result<(), String> {` => `-> (r: Result<(), String>) {`
+//@end
+//@fn base/src/new_empty.rs Model::move_sheet
+//@spec
+    ensures
+        r.is_err() ==> final(self).workbook == old(self).workbook && final(self).view_id == old(self).view_id && final(self).rest == old(self).rest,
+        r.is_ok() ==> sheet_index < old(self).workbook.worksheets@.len() && new_index < old(self).workbook.worksheets@.len()
+            && final(self).workbook.views == old(self).workbook.views && final(self).view_id == old(self).view_id
+            && (sheet_index == new_index ==> final(self).workbook.worksheets@ =~= old(self).workbook.worksheets@)
+            && (sheet_index != new_index ==> final(self).workbook.worksheets@ =~= old(self).workbook.worksheets@.remove(sheet_index as int).insert(new_index as int, old(self).workbook.worksheets@[sheet_index as int])),
+//@rewrite `-> Result<(), String> {` => `-> (r: Result<(), String>) {`
+//@end
+}
+//@fn base/src/user_model/common.rs selected_sheet_after_move
+//@spec
+    requires selected < 4294967295
+    ensures r <= selected || r <= from || r <= to,     // hence an existing sheet whenever the three indices are
+//@rewrite `-> u32 {` => `-> (r: u32) {`
+//@end
+//@fn base/src/user_model/common.rs selected_sheet_after_delete
+//@spec
+    ensures selected < sheet_count && deleted < sheet_count && sheet_count > 1 ==> r < sheet_count - 1,
+//@rewrite `-> u32 {` => `-> (r: u32) {`
+//@end
+impl History {
+//@fn base/src/user_model/history.rs History::push
+//@spec
+    ensures
+        final(self).undo_stack@ =~= old(self).undo_stack@.push(diff_list),
+        final(self).redo_stack@.len() == 0,
+//@end
+}
+
+impl Worksheet {
+//@stub base/src/worksheet.rs Worksheet::is_row_hidden
+    ensures r.is_ok() == (1 <= row <= 1048576)
+//@end
+//@stub base/src/worksheet.rs Worksheet::is_column_hidden
+    ensures r.is_ok() == (1 <= column <= 16384)
+//@end
+}
 impl Workbook {
 //@stub base/src/workbook.rs Workbook::worksheet
     ensures r.is_ok() == ((worksheet_index as int) < self.worksheets@.len()),
@@ -76,11 +189,15 @@ impl Workbook {
             r.is_err() ==> *final(self) == *old(self),
             r.is_ok() ==> *r.unwrap() == old(self).worksheets@[worksheet_index as int]
                 && final(self).worksheets@ == old(self).worksheets@.update(worksheet_index as int, *final(r.unwrap()))
-                && final(self).views == old(self).views && final(self).rest == old(self).rest
+                && final(self).views == old(self).views && final(self).rest == old(self).rest && final(self).name == old(self).name
 //@end
 }
 
-impl UserModel {
+impl<'a> UserModel<'a> {
+//@stub base/src/user_model/ui.rs UserModel::ui_row_height
+//@end
+//@stub base/src/user_model/ui.rs UserModel::ui_column_width
+//@end
 //@fn base/src/user_model/ui.rs UserModel::get_selected_sheet
 //@spec
     ensures r as int == cur_sheet(&self.model)
@@ -98,6 +215,7 @@ impl UserModel {
 //@spec
     requires sel_inv(&old(self).model)
     ensures
+        ui_frame(old(self), final(self)),
         sel_inv(&final(self).model),
         r.is_err() ==> same_model(&final(self).model, &old(self).model),
         r.is_ok() == ((sheet as int) < old(self).model.workbook.worksheets@.len()),
@@ -110,6 +228,7 @@ impl UserModel {
 //@spec
     requires sel_inv(&old(self).model)
     ensures
+        ui_frame(old(self), final(self)),
         sel_inv(&final(self).model),
         r.is_err() ==> same_model(&final(self).model, &old(self).model),
         r.is_ok() == on_grid(row as int, column as int),
@@ -119,6 +238,7 @@ impl UserModel {
         forall|i: int, k: u32| 0 <= i < old(self).model.workbook.worksheets@.len() && !(i == cur_sheet(&old(self).model) && k == 0)
             ==> final(self).model.workbook.worksheets@[i].views@.contains_key(k) == old(self).model.workbook.worksheets@[i].views@.contains_key(k)
                 && (old(self).model.workbook.worksheets@[i].views@.contains_key(k) ==> #[trigger] final(self).model.workbook.worksheets@[i].views@[k] == old(self).model.workbook.worksheets@[i].views@[k]),
+        final(self).model.workbook.worksheets@[cur_sheet(&old(self).model)].views@.contains_key(0) == old(self).model.workbook.worksheets@[cur_sheet(&old(self).model)].views@.contains_key(0),
         r.is_ok() && old(self).model.workbook.worksheets@[cur_sheet(&old(self).model)].views@.contains_key(0) ==> ({
             let v = final(self).model.workbook.worksheets@[cur_sheet(&old(self).model)].views@[0];
             final(self).model.workbook.worksheets@[cur_sheet(&old(self).model)].views@.contains_key(0)
@@ -130,6 +250,7 @@ impl UserModel {
 //@spec
     requires sel_inv(&old(self).model)
     ensures
+        ui_frame(old(self), final(self)),
         sel_inv(&final(self).model),
         r.is_err() ==> same_model(&final(self).model, &old(self).model),
         r.is_ok() ==> on_grid(start_row as int, start_column as int) && on_grid(end_row as int, end_column as int),
@@ -145,8 +266,276 @@ impl UserModel {
                   (start_row == 1 && end_row == 1048576 && (v.column == start_column || v.column == end_column))
                   || (!(start_row == 1 && end_row == 1048576) && start_column == 1 && end_column == 16384 && (v.row == start_row || v.row == end_row)) })
             ==> r.is_ok(),
+        on_grid(start_row as int, start_column as int) && on_grid(end_row as int, end_column as int)
+            && !old(self).model.workbook.worksheets@[cur_sheet(&old(self).model)].views@.contains_key(0) ==> r.is_ok(),
 //@rewrite `) -> Result<(), String> {` => `) -> (r: Result<(), String>) {`
 //@end
+
+// the remaining writers of (row, column, range) in ui.rs.  The scroll arithmetic in front of these tails is f64 code (Verus
+// cannot translate the i64 -> f64 casts), so page up/down are taken from the point where the new top row is known.
+/// on_page_down from `let row_delta` on: `last_row` passed the is_valid_row check just above
+pub fn on_page_down_tail(&mut self, sheet: u32, view: &WorksheetView, last_row: i32)
+    requires sel_inv(&old(self).model), view_ok(*view), small(view.top_row as int), 1 <= last_row <= 1048576
+    ensures sel_inv(&final(self).model)
+{
+//@fragment base/src/user_model/ui.rs UserModel::on_page_down `let row_delta = view.row - view.top_row;` .. `view.range = [view.row, view.column, view.row, view.column];`
+//@end
+}
+/// on_page_up from `let row_delta` on: `first_row` only decreases from the (on-grid) top row and stops at 1
+pub fn on_page_up_tail(&mut self, sheet: u32, view: &WorksheetView, first_row: i32)
+    requires sel_inv(&old(self).model), view_ok(*view), small(view.top_row as int), small(first_row as int)
+    ensures sel_inv(&final(self).model)
+{
+//@fragment base/src/user_model/ui.rs UserModel::on_page_up `let row_delta = view.row - view.top_row;` .. `view.range = [view.row, view.column, view.row, view.column];`
+//@end
+}
+
+/// on_area_selecting, reading step: what it takes for the selected cell IS the selected cell of (sheet, view_id)
+pub fn on_area_selecting_read(&self, sheet: u32) -> (r: Option<(i32, i32, i32, i32)>)
+    ensures r matches Some(t) ==> (sheet as int) < self.model.workbook.worksheets@.len()
+        && self.model.workbook.worksheets@[sheet as int].views@.contains_key(self.model.view_id)
+        && t.0 == self.model.workbook.worksheets@[sheet as int].views@[self.model.view_id].row
+        && t.1 == self.model.workbook.worksheets@[sheet as int].views@[self.model.view_id].column
+{
+//@fragment base/src/user_model/ui.rs UserModel::on_area_selecting `let (selected_row, selected_column, top_row, left_column) =` .. `};`
+//@rewritex2 `return Ok(());` => `return None;`
+//@end
+    Some((selected_row, selected_column, top_row, left_column))
+}
+/// on_area_selecting, validation step: only on-grid targets get past it
+pub fn on_area_selecting_validate(&self, target_row: i32, target_column: i32) -> (r: Result<(), String>)
+    ensures r.is_ok() ==> on_grid(target_row as int, target_column as int)
+{
+//@fragment base/src/user_model/ui.rs UserModel::on_area_selecting `if !is_valid_row(target_row) {` .. `return Err(format!("Invalid column: '{target_column}'"));`
+//@end
+    Ok(())
+}
+/// on_area_selecting, writing step: the new area is anchored at the selected cell and ends at the (on-grid) target
+pub fn on_area_selecting_write(&mut self, sheet: u32, selected_row: i32, selected_column: i32, target_row: i32, target_column: i32,
+                               top_row: i32, new_top_row: i32, left_column: i32, new_left_column: i32)
+    requires sel_inv(&old(self).model), on_grid(target_row as int, target_column as int),
+        (sheet as int) < old(self).model.workbook.worksheets@.len() && old(self).model.workbook.worksheets@[sheet as int].views@.contains_key(old(self).model.view_id)
+            ==> selected_row == old(self).model.workbook.worksheets@[sheet as int].views@[old(self).model.view_id].row
+             && selected_column == old(self).model.workbook.worksheets@[sheet as int].views@[old(self).model.view_id].column,
+    ensures sel_inv(&final(self).model)
+{
+//@fragment base/src/user_model/ui.rs UserModel::on_area_selecting `if let Ok(worksheet) = self.model.workbook.worksheet_mut(sheet) {` .. `view.left_column = new_left_column;`
+//@end
+}
+
+// arrow keys: the write step (the target line is proved on-grid in unit nav; here: writing it keeps the invariant).
+// D2: the scroll adjustment after the range assignment (f64 comparison with an i64 -> f64 cast) is dropped where present.
+pub fn on_arrow_right_write(&mut self, sheet: u32, new_column: i32)
+    requires sel_inv(&old(self).model), 1 <= new_column <= 16384
+    ensures sel_inv(&final(self).model)
+{
+//@fragment base/src/user_model/ui.rs UserModel::on_arrow_right `if let Ok(worksheet) = self.model.workbook.worksheet_mut(sheet) {` ..< `if width > window_width as f64 {`
+//@end
+}
+pub fn on_arrow_left_write(&mut self, sheet: u32, new_column: i32)
+    requires sel_inv(&old(self).model), 1 <= new_column <= 16384
+    ensures sel_inv(&final(self).model)
+{
+//@fragment base/src/user_model/ui.rs UserModel::on_arrow_left `if let Ok(worksheet) = self.model.workbook.worksheet_mut(sheet) {` .. `view.left_column = new_column;`
+//@end
+}
+pub fn on_arrow_up_write(&mut self, sheet: u32, new_row: i32)
+    requires sel_inv(&old(self).model), 1 <= new_row <= 1048576
+    ensures sel_inv(&final(self).model)
+{
+//@fragment base/src/user_model/ui.rs UserModel::on_arrow_up `if let Ok(worksheet) = self.model.workbook.worksheet_mut(sheet) {` .. `view.top_row = new_row;`
+//@end
+}
+pub fn on_arrow_down_write(&mut self, sheet: u32, new_row: i32)
+    requires sel_inv(&old(self).model), 1 <= new_row <= 1048576
+    ensures sel_inv(&final(self).model)
+{
+//@fragment base/src/user_model/ui.rs UserModel::on_arrow_down `if let Ok(worksheet) = self.model.workbook.worksheet_mut(sheet) {` ..< `if height > window_height as f64 {`
+//@end
+}
+/// Ctrl+arrow: whatever Worksheet::navigate_to_edge_in_direction answers is validated before it is written
+pub fn on_navigate_validate(&self, new_row: i32, new_column: i32) -> (r: Result<(), String>)
+    ensures r.is_ok() ==> on_grid(new_row as int, new_column as int)
+{
+//@fragment base/src/user_model/ui.rs UserModel::on_navigate_to_edge_in_direction `if !is_valid_row(new_row) || !is_valid_column_number(new_column) {` .. `return Err("Invalid row or column after navigation".to_string());`
+//@end
+    Ok(())
+}
+pub fn on_navigate_write(&mut self, sheet: u32, new_row: i32, new_column: i32, top_row: i32, left_column: i32)
+    requires sel_inv(&old(self).model), on_grid(new_row as int, new_column as int)
+    ensures sel_inv(&final(self).model)
+{
+//@fragment base/src/user_model/ui.rs UserModel::on_navigate_to_edge_in_direction `if let Ok(worksheet) = self.model.workbook.worksheet_mut(sheet) {` .. `view.left_column = left_column;`
+//@end
+}
+
+// ---- sheet operations of the user model: the selection stays on an existing sheet; a failed call changes nothing ----
+//@fn base/src/user_model/common.rs UserModel::push_diff_list
+//@spec
+    ensures
+        final(self).model == old(self).model, final(self).pause_evaluation == old(self).pause_evaluation,
+        one_entry(old(self), final(self)),
+//@end
+//@fn base/src/user_model/common.rs UserModel::evaluate_if_not_paused
+//@spec
+    ensures
+        final(self).history == old(self).history, final(self).send_queue == old(self).send_queue,
+        sel_inv(&old(self).model) ==> sel_inv(&final(self).model),
+//@end
+//@fn base/src/user_model/common.rs UserModel::delete_sheet
+//@spec
+    requires sel_inv(&old(self).model), few_sheets(&old(self).model)
+    ensures sel_inv(&final(self).model),
+        r.is_err() ==> same_state_v(old(self), final(self)),
+        r.is_ok() ==> one_entry(old(self), final(self)),
+//@rewrite `-> Result<(), String> {` => `-> (r: Result<(), String>) {`
+//@end
+//@fn base/src/user_model/common.rs UserModel::move_sheet
+//@spec
+    requires sel_inv(&old(self).model), few_sheets(&old(self).model)
+    ensures sel_inv(&final(self).model),
+        r.is_err() ==> same_state_v(old(self), final(self)),
+        r.is_ok() ==> one_entry(old(self), final(self)) || same_state_v(old(self), final(self)),
+//@rewrite `-> Result<(), String> {` => `-> (r: Result<(), String>) {`
+//@end
+
+//@fn base/src/user_model/common.rs UserModel::hide_sheet
+//@attr
+#[verifier::loop_isolation(false)]
+//@spec
+    requires sel_inv(&old(self).model), few_sheets(&old(self).model)
+    ensures sel_inv(&final(self).model),
+        r.is_err() ==> same_state_v(old(self), final(self)),
+        r.is_ok() ==> one_entry(old(self), final(self)),
+//@rewrite `-> Result<(), String> {` => `-> (r: Result<(), String>) {`
+//@loop 1
+            invariant sel_inv(&self.model), self.model.workbook.worksheets@.len() == sheet_count, sheet < sheet_count,
+                self.history == old(self).history, self.send_queue == old(self).send_queue, self.pause_evaluation == old(self).pause_evaluation,
+//@end
+//@fn base/src/user_model/common.rs UserModel::new_sheet
+//@spec
+    requires sel_inv(&old(self).model), few_sheets(&old(self).model)
+    ensures sel_inv(&final(self).model),
+        r.is_ok(),     // (the Err exit after the engine call is unreachable)
+        one_entry(old(self), final(self)),
+//@rewrite `-> Result<(), String> {` => `-> (r: Result<(), String>) {`
+//@after `self.model.new_sheet();`
+        proof {
+            let n = old(self).model.workbook.worksheets@.len() as int;
+            assert forall|i: int, k: u32| 0 <= i < n + 1 && self.model.workbook.worksheets@[i].views@.contains_key(k)
+                implies view_ok(#[trigger] self.model.workbook.worksheets@[i].views@[k]) by {
+                if i < n { assert(self.model.workbook.worksheets@[i] == self.model.workbook.worksheets@.drop_last()[i]); }
+                else { assert(self.model.workbook.worksheets@[i] == self.model.workbook.worksheets@.last()); }
+            }
+        }
+//@end
+//@fn base/src/user_model/common.rs UserModel::duplicate_sheet
+//@spec
+    requires sel_inv(&old(self).model), few_sheets(&old(self).model)
+    ensures sel_inv(&final(self).model),
+        r.is_err() ==> same_state_v(old(self), final(self)),
+        r.is_ok() ==> one_entry(old(self), final(self)),
+//@rewrite `-> Result<(), String> {` => `-> (r: Result<(), String>) {`
+//@after `self.model.duplicate_sheet(sheet)?;`
+        proof {
+            let n = old(self).model.workbook.worksheets@.len() as int;
+            let s0 = old(self).model.workbook.worksheets@;
+            let s1 = self.model.workbook.worksheets@;
+            assert forall|i: int, k: u32| 0 <= i < n + 1 && s1[i].views@.contains_key(k) implies view_ok(#[trigger] s1[i].views@[k]) by {
+                if i < sheet + 1 { assert(s1[i] == s1.remove(sheet as int + 1)[i]); }
+                else if i > sheet + 1 { assert(s1[i] == s1.remove(sheet as int + 1)[i - 1]); }
+                else { assert(s1[i].views == s0[sheet as int].views); }
+            }
+        }
+//@end
+
+// hiding lines: the whole request is validated before the first line is touched, the search for the next visible line never
+// leaves the grid, and the re-selection it ends with is always accepted (R4 on the inclusive-range `for`, as in unit atomic)
+//@fn base/src/user_model/common.rs UserModel::set_columns_hidden
+//@attr
+#[verifier::loop_isolation(false)]
+//@spec
+    requires sel_inv(&old(self).model), small(column_start as int), small(column_end as int)
+    ensures sel_inv(&final(self).model),
+        r.is_err() ==> same_state_v(old(self), final(self)),
+        r.is_ok() ==> one_entry(old(self), final(self)),
+//@rewrite `) -> Result<(), String> {` => `) -> (r: Result<(), String>) {`
+//@rewrite `for column in column_start..=column_end {` => `let mut __i = column_start; while __i <= column_end { let column = __i; __i += 1;`
+//@loop 1
+            invariant column_start <= __i, column_start <= column_end ==> __i <= column_end + 1, column_start > column_end ==> __i == column_start,
+                hidden_frame(&old(self).model, &self.model), self.history == old(self).history, self.send_queue == old(self).send_queue,
+                self.pause_evaluation == old(self).pause_evaluation,
+                __i == column_start ==> same_state_v(old(self), self),
+            decreases column_end + 1 - __i
+//@loop 2
+                    invariant column_start <= column_end ==> column_end < column <= 16385,
+                        column_start > column_end ==> same_state_v(old(self), self),
+                        hidden_frame(&old(self).model, &self.model), self.history == old(self).history, self.send_queue == old(self).send_queue,
+                        self.pause_evaluation == old(self).pause_evaluation,
+                    decreases 16385 - column
+//@loop 3
+                        invariant column_start <= column_end ==> 0 <= column < column_start,
+                            column_start > column_end ==> same_state_v(old(self), self),
+                            hidden_frame(&old(self).model, &self.model), self.history == old(self).history, self.send_queue == old(self).send_queue,
+                            self.pause_evaluation == old(self).pause_evaluation,
+                        decreases column
+//@end
+//@fn base/src/user_model/common.rs UserModel::set_rows_hidden
+//@attr
+#[verifier::loop_isolation(false)]
+//@spec
+    requires sel_inv(&old(self).model), small(row_start as int), small(row_end as int)
+    ensures sel_inv(&final(self).model),
+        r.is_err() ==> same_state_v(old(self), final(self)),
+        r.is_ok() ==> one_entry(old(self), final(self)),
+//@rewrite `) -> Result<(), String> {` => `) -> (r: Result<(), String>) {`
+//@rewrite `for row in row_start..=row_end {` => `let mut __i = row_start; while __i <= row_end { let row = __i; __i += 1;`
+//@loop 1
+            invariant row_start <= __i, row_start <= row_end ==> __i <= row_end + 1, row_start > row_end ==> __i == row_start,
+                hidden_frame(&old(self).model, &self.model), self.history == old(self).history, self.send_queue == old(self).send_queue,
+                self.pause_evaluation == old(self).pause_evaluation,
+                __i == row_start ==> same_state_v(old(self), self),
+            decreases row_end + 1 - __i
+//@loop 2
+                    invariant row_start <= row_end ==> row_end < row <= 1048577,
+                        row_start > row_end ==> same_state_v(old(self), self),
+                        hidden_frame(&old(self).model, &self.model), self.history == old(self).history, self.send_queue == old(self).send_queue,
+                        self.pause_evaluation == old(self).pause_evaluation,
+                    decreases 1048577 - row
+//@loop 3
+                        invariant row_start <= row_end ==> 0 <= row < row_start,
+                            row_start > row_end ==> same_state_v(old(self), self),
+                            hidden_frame(&old(self).model, &self.model), self.history == old(self).history, self.send_queue == old(self).send_queue,
+                            self.pause_evaluation == old(self).pause_evaluation,
+                        decreases row
+//@end
+
+/// on_paste_styles, area step: the area that gets styled (and then selected) covers the old selected range, whichever way that range
+/// was dragged, and lies on the grid — checked BEFORE the first cell is styled (C04)
+pub fn on_paste_styles_area(range: [i32; 4], styles_height: i32, styles_width: i32) -> (r: Result<(i32, i32, i32, i32), String>)
+    requires on_grid(range@[0] as int, range@[1] as int), on_grid(range@[2] as int, range@[3] as int), 0 <= styles_height <= 4194304, 0 <= styles_width <= 4194304
+    ensures r matches Ok(t) ==> {
+        &&& 1 <= t.0 <= t.2 <= 1048576 && 1 <= t.1 <= t.3 <= 16384
+        &&& t.0 <= range@[0] <= t.2 && t.0 <= range@[2] <= t.2 && t.1 <= range@[1] <= t.3 && t.1 <= range@[3] <= t.3
+    }
+{
+//@fragment base/src/user_model/common.rs UserModel::on_paste_styles `let [row1, column1, row2, column2] = range;` .. `return Err("Incorrect row or column".to_string());`
+//@rewrite `let [row1, column1, row2, column2] = range;` => `let (row1, column1, row2, column2) = (range[0], range[1], range[2], range[3]);`
+//@end
+    Ok((row_start, column_start, last_row, last_column))
+}
+/// on_paste_styles, last step: that area becomes the selected range; the selected cell, which was inside the old range, is inside it
+pub fn on_paste_styles_select(&mut self, sheet: u32, range: [i32; 4], row_start: i32, column_start: i32, last_row: i32, last_column: i32)
+    requires sel_inv(&old(self).model),
+        (sheet as int) < old(self).model.workbook.worksheets@.len() && old(self).model.workbook.worksheets@[sheet as int].views@.contains_key(old(self).model.view_id)
+            ==> old(self).model.workbook.worksheets@[sheet as int].views@[old(self).model.view_id].range@ =~= range@,
+        1 <= row_start <= last_row <= 1048576 && 1 <= column_start <= last_column <= 16384,
+        row_start <= range@[0] <= last_row && row_start <= range@[2] <= last_row && column_start <= range@[1] <= last_column && column_start <= range@[3] <= last_column,
+    ensures sel_inv(&final(self).model)
+{
+//@fragment base/src/user_model/common.rs UserModel::on_paste_styles `if let Ok(worksheet) = self.model.workbook.worksheet_mut(sheet) {` .. `view.range = [row_start, column_start, last_row, last_column];`
+//@end
+}
 }
 
 } // verus!
